@@ -195,18 +195,18 @@ type c08Def struct {
 }
 
 var c08Defs = map[string]c08Def{
-	"dedup-join-vs-delete-vs-gc":    {"k1=A", []string{"PutA:k2", "Delete:k1", "GC"}},
-	"copy-vs-delete-vs-gc":          {"k1=A", []string{"Copy:k1->k3", "Delete:k1", "GC"}},
-	"overwrite-vs-copy-vs-gc":       {"k1=A", []string{"PutB:k1", "Copy:k1->k3", "GC"}},
-	"shared-deletes-vs-join":        {"k1=A,k2=A", []string{"Delete:k1", "Delete:k2", "PutA:k3"}},
-	"shared-delete-vs-join-vs-gc":   {"k1=A,k2=A", []string{"Delete:k1", "PutA:k3", "GC"}},
-	"partcopy-vs-delete-vs-gc":      {"k1=A,upload", []string{"PartCopy:k1->U", "Delete:k1", "GC"}},
-	"complete-vs-delete-vs-gc":      {"k1=A,upload-with-copy", []string{"Complete:U", "Delete:k1", "GC"}},
-	"abort-vs-join-vs-gc":           {"k1=A,upload-with-copy", []string{"Abort:U", "Delete:k1", "PutA:k2"}},
-	"transition-vs-join-vs-gc":      {"k1=A", []string{"Transition:k1", "PutA:k2", "GC"}},
-	"append-vs-delete-vs-gc":        {"k1=A", []string{"Append:k1", "Delete:k1", "GC"}},
-	"two-gcs-vs-join":               {"k1=A", []string{"GC", "GC", "PutA:k2"}},
-	"4threads":                      {"k1=A,k2=A", []string{"Delete:k1", "Delete:k2", "PutA:k3", "GC"}},
+	"dedup-join-vs-delete-vs-gc":  {"k1=A", []string{"PutA:k2", "Delete:k1", "GC"}},
+	"copy-vs-delete-vs-gc":        {"k1=A", []string{"Copy:k1->k3", "Delete:k1", "GC"}},
+	"overwrite-vs-copy-vs-gc":     {"k1=A", []string{"PutB:k1", "Copy:k1->k3", "GC"}},
+	"shared-deletes-vs-join":      {"k1=A,k2=A", []string{"Delete:k1", "Delete:k2", "PutA:k3"}},
+	"shared-delete-vs-join-vs-gc": {"k1=A,k2=A", []string{"Delete:k1", "PutA:k3", "GC"}},
+	"partcopy-vs-delete-vs-gc":    {"k1=A,upload", []string{"PartCopy:k1->U", "Delete:k1", "GC"}},
+	"complete-vs-delete-vs-gc":    {"k1=A,upload-with-copy", []string{"Complete:U", "Delete:k1", "GC"}},
+	"abort-vs-join-vs-gc":         {"k1=A,upload-with-copy", []string{"Abort:U", "Delete:k1", "PutA:k2"}},
+	"transition-vs-join-vs-gc":    {"k1=A", []string{"Transition:k1", "PutA:k2", "GC"}},
+	"append-vs-delete-vs-gc":      {"k1=A", []string{"Append:k1", "Delete:k1", "GC"}},
+	"two-gcs-vs-join":             {"k1=A", []string{"GC", "GC", "PutA:k2"}},
+	"4threads":                    {"k1=A,k2=A", []string{"Delete:k1", "Delete:k2", "PutA:k3", "GC"}},
 }
 
 func init() {
@@ -220,6 +220,8 @@ func init() {
 // Sequential part: histories over the part-sharing alphabet (see shareAlphabet in c01_test.go)
 // followed by a GC pass; every object must stay readable (full-state comparison with the model).
 func init() {
+	sx.Register(&sx.Spec{Name: "C08fail", Buckets: []string{"bka"}, Keys: []string{"k1", "k2"}, Alphabet: shareAlphabet,
+		Assert: map[string]bool{"content": true, "exist": true}, Faults: true, FaultOracle: c01AfterFailure})
 	sx.Register(&sx.Spec{Name: "C08share", Buckets: []string{"bka"}, Keys: []string{"k1", "k2"}, Alphabet: shareAlphabet,
 		Assert: map[string]bool{"content": true, "exist": true, "gc": true},
 		Extra: func(c *sx.StepCtx) []sx.Diff {
@@ -262,7 +264,18 @@ func TestC08(t *testing.T) {
 	if !quick() {
 		sh.Depth, sh.Stacks = 6, []string{world.StackFS, world.StackSQL}
 	}
+	// a failed operation must not have deleted parts either: the same alphabet with one injected
+	// failure per step (part-store calls, commit), oracle = every object still reads as in the model
+	fl := &sx.Search{Run: run, TestRun: "^TestWorker$", Spec: sx.SpecByName("C08fail"), Depth: 1, Stacks: []string{world.StackFS},
+		Seeds: append([][]sx.Op{{{Kind: "CreateBucket", B: "bka"}, {Kind: "Put", B: "bka", K: "k1", Body: "P9"}, {Kind: "Put", B: "bka", K: "k2", Body: "a"}}}, shareSeeds...)}
+	if !quick() {
+		fl.Depth, fl.Stacks = 2, []string{world.StackFS, world.StackNamed}
+	}
+	fl.Until = time.Now().Add(time.Until(run.Deadline()) / 5)
+	fl.Explore()
+	sh.Until = time.Now().Add(time.Until(run.Deadline()) * 4 / 10)
 	sh.Explore()
+	sh.Merge(fl)
 	exploreScenarios(t, run, names, bound, tot, nil)
 	tot.coverage(run)
 	run.Cov["sequential_sharing_histories"] = map[string]any{"states": sh.States, "transitions": sh.Transitions, "depth": sh.DepthDone}
